@@ -93,6 +93,55 @@ type VerifC04Obs struct {
 	After   *VerifDump   `json:"after,omitempty"` // after reopen
 	Tail    []VerifOpObs `json:"tail"`
 	Final   *VerifDump   `json:"final,omitempty"` // after the tail
+	InProg  int          `json:"inprog"`          // index of the write that was in progress when the child went away (-1: none)
+	RefA    *VerifDump   `json:"refA,omitempty"`  // crash-free run of the acknowledged prefix on a fresh store
+	RefB    *VerifDump   `json:"refB,omitempty"`  // ... plus the interrupted write
+}
+
+// index of the op that was started but not finished according to the trace, else -1
+func verifInProgress(tr []VerifTrace) int {
+	cur := -1
+	for _, t := range tr {
+		switch t.Kind {
+		case "op":
+			cur = t.Op
+		case "done":
+			cur = -1
+		}
+	}
+	return cur
+}
+
+// crash-free reference: the same ops on a fresh store in this process
+func verifReference(c VerifC04Case, dir string, inprog int) (a *VerifDump, b *VerifDump) {
+	_ = os.MkdirAll(dir, 0o755)
+	defer os.RemoveAll(dir)
+	h := &verifHub{dir: dir}
+	h.open()
+	defer h.close()
+	for _, d := range c.Datasets {
+		if _, err := h.dsm.CreateDataset(d, nil); err != nil {
+			return nil, nil
+		}
+	}
+	times := make(map[int]int64)
+	tokens := make(map[string]int64)
+	n := len(c.Ops)
+	if inprog >= 0 {
+		n = inprog
+	}
+	for i := 0; i < n; i++ {
+		if c.Ops[i].Op == "restart" {
+			continue
+		}
+		verifDoOp(h, c.Ops[i], i, times, tokens)
+	}
+	a = verifDump(h, c)
+	if inprog >= 0 {
+		verifDoOp(h, c.Ops[inprog], inprog, times, tokens)
+		b = verifDump(h, c)
+	}
+	return
 }
 
 func verifTraceAppend(f *os.File, t VerifTrace) {
@@ -403,6 +452,10 @@ func VerifC04Parent(c VerifC04Case, dir string, exit int) (obs VerifC04Obs) {
 	obs.Exit = exit
 	obs.Trace = verifReadTrace(dir)
 	obs.Tail = []VerifOpObs{}
+	obs.InProg = verifInProgress(obs.Trace)
+	if exit == 0 {
+		obs.InProg = -1
+	}
 	if b, err := os.ReadFile(dir + "/base.json"); err == nil {
 		var bd VerifDump
 		if json.Unmarshal(b, &bd) == nil {
@@ -427,11 +480,20 @@ func VerifC04Parent(c VerifC04Case, dir string, exit int) (obs VerifC04Obs) {
 	times := make(map[int]int64)
 	tokens := make(map[string]int64)
 	for i, op := range c.Tail {
+		if op.Op == "retry" { // the client repeats the write that was never acknowledged
+			if obs.InProg < 0 {
+				obs.Tail = append(obs.Tail, VerifOpObs{Err: "nothing to retry"})
+				continue
+			}
+			op = c.Ops[obs.InProg]
+		}
 		lens := verifLens(h, op)
 		oo := verifDoOp(h, op, i, times, tokens)
 		oo.Lens = lens
 		obs.Tail = append(obs.Tail, oo)
 	}
 	obs.Final = verifDump(h, c)
+	h.close()
+	obs.RefA, obs.RefB = verifReference(c, dir+"-ref", obs.InProg)
 	return
 }
